@@ -44,6 +44,8 @@ type World struct {
 	// Probe, if set, is called when a response times out; it must return nil when the server
 	// demonstrably answers a fresh connection (then a hang is a violation, else inconclusive).
 	Probe func() error
+	// SnapDir, if set, is snapshotted around every request: only the request's own target may change.
+	SnapDir string
 	// LaxEscape admits, for lexically escaping paths, the clamped and the non-existent answer.
 	Start time.Time
 }
@@ -95,10 +97,14 @@ type Oracle struct {
 	woPath string
 
 	curState, curReq string
+	touched          []string // OS paths the current request may legitimately change
 	stepBytes        int
 	// maybeClosed: the previous request admitted both "connection ended" and "continues" and
 	// produced no bytes, so the model does not know yet which one happened.
 	maybeClosed bool
+
+	// Uploads maps OS paths of files created in this session to the concatenation of their payloads.
+	Uploads map[string][]byte
 
 	Closed bool // the model knows the server has closed the connection
 	// Coverage of (state, opcode, outcome) triples.
@@ -132,7 +138,7 @@ func (c countT) ExpectEOF() ([]byte, wire.ReadStatus) {
 }
 
 func NewOracle(w *World, t Transport) *Oracle {
-	o := &Oracle{W: w, Cover: map[string]int{}}
+	o := &Oracle{W: w, Cover: map[string]int{}, Uploads: map[string][]byte{}}
 	o.T = countT{t, &o.stepBytes}
 	return o
 }
@@ -296,7 +302,22 @@ func (o *Oracle) Step(r wire.Req) *Fail {
 	mc := o.maybeClosed
 	o.maybeClosed = false
 	o.stepBytes = 0
+	var before map[string]string
+	if o.W.SnapDir != "" {
+		before = Snapshot(o.W.SnapDir)
+		o.touched = nil
+	}
 	f := o.dispatch(r)
+	if f == nil && before != nil {
+		after := Snapshot(o.W.SnapDir)
+		allowed := append([]string{}, o.touched...)
+		for p := range o.Uploads {
+			allowed = append(allowed, p) // files being uploaded may reach the disk at any later point
+		}
+		if d := SnapDiff(before, after, allowed); len(d) > 0 {
+			return fail("collateral-change", r.Op.String(), "%s changed objects other than its target %v: %v", r.String(), o.touched, d)
+		}
+	}
 	if f != nil && mc && o.Closed && o.stepBytes == 0 && (f.Rule == "unexpected-close" || f.Rule == "short-response") {
 		o.cover(r.Op, "after-admissible-close")
 		return nil
@@ -1165,7 +1186,7 @@ func keys(m map[string]bool) []string {
 	return k
 }
 
-func dirTotal(p string, follow bool) int64 {
+func dirTotal(p string, follow int) int64 {
 	var total int64
 	var walk func(string)
 	walk = func(d string) {
@@ -1181,15 +1202,15 @@ func dirTotal(p string, follow bool) int64 {
 			}
 			st := lst
 			if lst.Mode&syscall.S_IFMT == syscall.S_IFLNK {
-				if !follow {
+				if follow == 0 {
 					continue
 				}
 				st, err = stat(full)
 				if err != nil {
 					continue
 				}
-				if isDir(st) {
-					continue // cycles: symlinked directories are accepted either way by the generator's design (none generated)
+				if isDir(st) && follow < 2 {
+					continue // symlinked directories: followed only in mode 2 (the generator creates no cycles)
 				}
 			}
 			if isDir(st) {
@@ -1226,12 +1247,12 @@ func (o *Oracle) stepDirSize(r wire.Req) *Fail {
 			o.cover(r.Op, "notdir-free")
 			return nil
 		}
-		a, c := dirTotal(t.os, false), dirTotal(t.os, true)
-		if got == a || got == c {
+		a, c, d := dirTotal(t.os, 0), dirTotal(t.os, 1), dirTotal(t.os, 2)
+		if got == a || got == c || got == d {
 			o.cover(r.Op, pick(esc, "escape-clamped", "dir"))
 			return nil
 		}
-		why = append(why, fmt.Sprintf("%q: want %d (or %d with symlinked files)", t.os, a, c))
+		why = append(why, fmt.Sprintf("%q: want %d (or %d / %d with symlinked files / directories followed)", t.os, a, c, d))
 	}
 	return fail("dirsize", pick(esc, "escaping-path", "plain-path"), "DIRSIZE %q answered %d: %s", r.Path, got, strings.Join(why, "; "))
 }
@@ -1325,6 +1346,8 @@ func (o *Oracle) stepCreate(r wire.Req) *Fail {
 					return fail("create-effect", pick(st == nil, "new-file", "existing-file"), "CREATE %q answered 0 but %s is not an empty regular file afterwards (err=%v)", r.Path, t.os, err)
 				}
 				o.wo, o.woPath = sOpen, t.os
+				o.Uploads[t.os] = []byte{}
+				o.touched = append(o.touched, t.os)
 				o.markDirty(t.os)
 				o.cover(r.Op, pick(st == nil, "new", "truncate"))
 				return nil
@@ -1350,12 +1373,6 @@ func (o *Oracle) stepCreate(r wire.Req) *Fail {
 }
 
 func (o *Oracle) stepWrite(r wire.Req) *Fail {
-	var szBefore int64 = -1
-	if o.wo == sOpen {
-		if st, err := stat(o.woPath); err == nil {
-			szBefore = st.Size
-		}
-	}
 	res, f := o.readResult(r)
 	if f != nil {
 		return f
@@ -1373,32 +1390,59 @@ func (o *Oracle) stepWrite(r wire.Req) *Fail {
 		}
 		o.cover(r.Op, "nofile")
 	case o.wo == sOpen:
+		o.touched = append(o.touched, o.woPath)
 		if res != n {
 			return fail("write-result", "WRITE", "WRITE of %d bytes to %s answered %d", n, o.woPath, res)
 		}
-		st, err := stat(o.woPath)
-		if err != nil || st.Size != szBefore+int64(n) {
-			return fail("write-effect", "size", "after WRITE of %d bytes %s has size %v, want %d", n, o.woPath, sizeOf(st), szBefore+int64(n))
-		}
-		if n > 0 {
-			fh, err := os.Open(o.woPath)
-			if err == nil {
-				buf := make([]byte, n)
-				_, err = fh.ReadAt(buf, szBefore)
-				fh.Close()
-				if err != nil || !bytes.Equal(buf, r.Payload) {
-					return fail("write-effect", "content", "bytes stored at offset %d of %s differ from the uploaded payload", szBefore, o.woPath)
-				}
-			}
-		}
+		// the stored bytes are verified when the upload is over (VerifyUploads): the statement
+		// does not say that every WRITE is on disk before its answer.
+		o.Uploads[o.woPath] = append(o.Uploads[o.woPath], r.Payload...)
 		o.cover(r.Op, "stored-"+sizeClass(int64(n)))
 	default:
 		if res != -1 && res != n {
 			return fail("write-result", "WRITE", "WRITE of %d bytes answered %d", n, res)
 		}
+		if res == n && o.woPath != "" {
+			delete(o.Uploads, o.woPath) // may or may not have gone to the previous file: not judged
+			o.touched = append(o.touched, o.woPath)
+		}
 		o.cover(r.Op, "free")
 	}
 	return nil
+}
+
+// VerifyUploads compares every file uploaded during the session with the concatenation of its
+// payloads. It is called after the connection has ended; it polls up to wait for the server to
+// finish closing the file.
+func (o *Oracle) VerifyUploads(wait time.Duration) *Fail {
+	deadline := time.Now().Add(wait)
+	for {
+		var bad *Fail
+		for p, want := range o.Uploads {
+			got, err := os.ReadFile(p)
+			if err != nil {
+				bad = fail("upload-content", "missing", "uploaded file %s cannot be read back: %v", p, err)
+				break
+			}
+			if !bytes.Equal(got, want) {
+				bad = fail("upload-content", "differs", "uploaded file %s holds %d bytes, the concatenated payloads are %d bytes (first difference at %d)", p, len(got), len(want), firstDiffLen(got, want))
+				break
+			}
+		}
+		if bad == nil || time.Now().After(deadline) {
+			return bad
+		}
+		time.Sleep(20 * time.Millisecond)
+	}
+}
+
+func firstDiffLen(a, b []byte) int {
+	for i := 0; i < len(a) && i < len(b); i++ {
+		if a[i] != b[i] {
+			return i
+		}
+	}
+	return min(len(a), len(b))
 }
 
 func sizeOf(st *syscall.Stat_t) any {
@@ -1489,6 +1533,8 @@ func (o *Oracle) stepRemove(r wire.Req) *Fail {
 				return fail("remove-truth", "non-empty-dir", "%s %q removed non-empty directory", r.Op, r.Path)
 			}
 			if gone {
+				delete(o.Uploads, t.os)
+				o.touched = append(o.touched, t.os)
 				o.markDirty(t.os)
 				if o.wo == sOpen && o.woPath == t.os {
 					o.wo = sFree
@@ -1549,6 +1595,7 @@ func (o *Oracle) stepMkdir(r wire.Req) *Fail {
 				if after == nil || !isDir(after) {
 					return fail("mkdir-effect", "MKDIR", "MKDIR %q answered 0 but %s is not a directory", r.Path, t.os)
 				}
+				o.touched = append(o.touched, t.os)
 				o.markDirty(t.os)
 				o.cover(r.Op, "created")
 				return nil
